@@ -332,7 +332,10 @@ Qed.
 
 Definition dmessage (d : dlcd) (top bottom : option (list Z)) (ta ba : Z) (clear : bool) : dlcd :=
   let d1 := match top with Some t => write_aligned d (d_cols d) 0 0 t clear ta | None => d end in
-  match bottom with Some b => write_aligned d1 (d_cols d) 0 1 b clear ba | None => d1 end.
+  match bottom with
+  | Some b => if d_rows d >? 1 then write_aligned d1 (d_cols d) 0 1 b clear ba else d1
+  | None => d1
+  end.
 
 Definition rows01_ext (d d' : dlcd) : Prop :=
   exists evs, d_log d' = evs ++ d_log d /\ Forall (ev_in_rows01 (d_cols d)) evs.
@@ -342,14 +345,14 @@ Proof. intros Hr. destruct e; cbn; try tauto. intros [-> Hc]. split; assumption.
 
 Lemma message_refines h d top bottom ta ba clear :
   fits (d_g d) -> shows h d -> opt_ascii top -> opt_ascii bottom ->
-  align_ok ta = true -> align_ok ba = true -> (bottom = None \/ 2 <= d_rows d) ->
+  align_ok ta = true -> align_ok ba = true ->
   exists h', hmessage h top bottom ta ba clear = (h', HOk) /\ same_flags h h' /\
     let d' := dmessage d top bottom ta ba clear in
     shows h' d' /\ textual d d' /\ rows01_ext d d' /\
     (forall r c, 2 <= r < d_rows d -> hcell h' r c = hcell h r c) /\
     (forall r c, 2 <= r < d_rows d -> 0 <= c < d_cols d -> dcell d' r c = dcell d r c).
 Proof.
-  intros Hf Sh Ht Hb Hta Hba Hrows. pose proof Hf as (Hc & Hr & _). fold (d_rows d) in Hr.
+  intros Hf Sh Ht Hb Hta Hba. pose proof Hf as (Hc & Hr & _). fold (d_rows d) in Hr.
   destruct (line_opt_refines h d 0 top ta clear Hf Sh ltac:(lia) Ht Hta) as (h1 & E1 & F1 & S1 & T1 & X1 & O1 & P1).
   cbv zeta in S1, T1, X1, O1, P1.
   set (d1 := match top with Some t => write_aligned d (d_cols d) 0 0 t clear ta | None => d end) in *.
@@ -358,10 +361,19 @@ Proof.
   assert (Er : d_rows d1 = d_rows d) by (unfold d_rows; rewrite G1; reflexivity).
   assert (Hr1 : h_rows h1 = d_rows d) by (destruct (shows_geom h1 d1 S1); congruence).
   unfold hmessage, dmessage. fold d1. rewrite E1.
-  destruct bottom as [b|].
-  - destruct Hrows as [Hn|Hrows]; [discriminate|].
-    rewrite Hr1. rewrite Z.gtb_ltb. destruct (Z.ltb_spec 1 (d_rows d)); [|lia].
-    assert (Hf1 : fits (d_g d1)) by (rewrite G1; exact Hf).
+  assert (Skip : exists h', (h1, HOk) = (h', HOk) /\ same_flags h h' /\
+            shows h' d1 /\ textual d d1 /\ rows01_ext d d1 /\
+            (forall r c, 2 <= r < d_rows d -> hcell h' r c = hcell h r c) /\
+            (forall r c, 2 <= r < d_rows d -> 0 <= c < d_cols d -> dcell d1 r c = dcell d r c)).
+  { exists h1. split; [reflexivity|]. split; [exact F1|].
+    split; [exact S1|]. split; [exact T1|]. split; [|split].
+    + destruct X1 as (e1 & L1 & A1). exists e1. split; [exact L1|].
+      eapply Forall_impl; [|exact A1]. intros e. apply in_row_rows01. left; reflexivity.
+    + intros r c Hrr. apply O1; lia.
+    + intros r c Hrr Hcc. apply P1; lia. }
+  destruct bottom as [b|]; [|exact Skip].
+  rewrite Hr1. rewrite Z.gtb_ltb. destruct (Z.ltb_spec 1 (d_rows d)); [|exact Skip]. clear Skip.
+  - assert (Hf1 : fits (d_g d1)) by (rewrite G1; exact Hf).
     destruct (line_opt_refines h1 d1 1 (Some b) ba clear Hf1 S1 ltac:(lia) Hb Hba) as (h2 & E2 & F2 & S2 & T2 & X2 & O2 & P2).
     cbv zeta in S2, T2, X2, O2, P2. rewrite Ec in *.
     exists h2. split; [exact E2|]. split; [eapply same_flags_trans; eassumption|]. cbv zeta.
@@ -372,12 +384,6 @@ Proof.
       * eapply Forall_impl; [|exact A1]. intros e. apply in_row_rows01. left; reflexivity.
     + intros r c Hrr. rewrite O2 by lia. apply O1; lia.
     + intros r c Hrr Hcc. rewrite P2 by lia. apply P1; lia.
-  - exists h1. split; [reflexivity|]. split; [exact F1|]. cbv zeta.
-    split; [exact S1|]. split; [exact T1|]. split; [|split].
-    + destruct X1 as (e1 & L1 & A1). exists e1. split; [exact L1|].
-      eapply Forall_impl; [|exact A1]. intros e. apply in_row_rows01. left; reflexivity.
-    + intros r c Hrr. apply O1; lia.
-    + intros r c Hrr Hcc. apply P1; lia.
 Qed.
 
 (* ====================================================================== *)
@@ -423,7 +429,26 @@ Qed.
 Lemma clampv_mono v1 v2 m : v1 <= v2 -> clampv v1 m <= clampv v2 m.
 Proof. unfold clampv. lia. Qed.
 
-Lemma progress_monotone v1 v2 m w : 0 < m -> 1 <= w -> v1 <= v2 ->
+(* max_value <= 0: an empty bar on both sides (host: ratio = 0; firmware: value = 0, max_value = 1) *)
+Lemma hfilled_nonpos v m w : m <= 0 -> hfilled v m w = 0.
+Proof.
+  intros Hm. unfold hfilled, hratio. destruct (Z.leb_spec m 0); [|lia].
+  unfold Qmult, inject_Z, round_half_even. cbn [Qnum Qden Z.mul Pos.mul]. reflexivity.
+Qed.
+
+Lemma dfilled_nonpos v m w : m <= 0 -> 0 <= w -> dfilled v m w = 0.
+Proof.
+  intros Hm Hw. unfold dfilled. destruct (Z.leb_spec m 0); [|lia].
+  cbn [Z.ltb Z.gtb Z.compare Z.mul Z.quot Z.quotrem fst]. rewrite Z.gtb_ltb. destruct (Z.ltb_spec w 0); [lia|reflexivity].
+Qed.
+
+Lemma hfilled_range' v m w : 0 <= w -> 0 <= hfilled v m w <= w.
+Proof.
+  intros Hw. destruct (Z_lt_le_dec 0 m) as [Hm|Hm]; [apply hfilled_range; assumption|].
+  rewrite hfilled_nonpos by exact Hm. lia.
+Qed.
+
+Lemma progress_monotone_pos v1 v2 m w : 0 < m -> 1 <= w -> v1 <= v2 ->
   hfilled v1 m w <= hfilled v2 m w /\ dfilled v1 m w <= dfilled v2 m w.
 Proof.
   intros Hm Hw Hv. rewrite !hfilled_Z, !dfilled_Z by lia.
@@ -431,7 +456,15 @@ Proof.
   split; [apply rhe_div_mono; nia|apply Z.div_le_mono; nia].
 Qed.
 
-Lemma progress_saturates v m w : 0 < m -> 1 <= w ->
+(* every max_value, also <= 0 (both bars stay empty) *)
+Lemma progress_monotone v1 v2 m w : 1 <= w -> v1 <= v2 ->
+  hfilled v1 m w <= hfilled v2 m w /\ dfilled v1 m w <= dfilled v2 m w.
+Proof.
+  intros Hw Hv. destruct (Z_lt_le_dec 0 m) as [Hm|Hm]; [apply progress_monotone_pos; assumption|].
+  rewrite !hfilled_nonpos, !dfilled_nonpos by lia. lia.
+Qed.
+
+Lemma progress_saturates_pos v m w : 0 < m -> 1 <= w ->
   0 <= hfilled v m w <= w /\ 0 <= dfilled v m w <= w /\
   (v <= 0 -> hfilled v m w = 0 /\ dfilled v m w = 0) /\
   (m <= v -> hfilled v m w = w /\ dfilled v m w = w).
@@ -445,18 +478,36 @@ Proof.
     rewrite (Z.mul_comm m w), rhe_div_exact, Z.div_mul by lia. split; reflexivity.
 Qed.
 
-Lemma progress_exact v m w : 0 < m -> 1 <= w -> (m | v * w) -> hfilled v m w = dfilled v m w.
+(* saturation: 0 at value <= 0 - and for every value when max_value <= 0 -, the bar width at
+   value >= max_value > 0 *)
+Lemma progress_saturates v m w : 1 <= w ->
+  0 <= hfilled v m w <= w /\ 0 <= dfilled v m w <= w /\
+  (v <= 0 \/ m <= 0 -> hfilled v m w = 0 /\ dfilled v m w = 0) /\
+  (0 < m <= v -> hfilled v m w = w /\ dfilled v m w = w).
 Proof.
-  intros Hm Hw [k Hk].
-  destruct (Z_le_gt_dec v 0) as [H0|H0]; [destruct (progress_saturates v m w Hm Hw) as (_ & _ & S & _); destruct (S H0); congruence|].
-  destruct (Z_le_gt_dec m v) as [H1|H1]; [destruct (progress_saturates v m w Hm Hw) as (_ & _ & _ & S); destruct (S H1); congruence|].
+  intros Hw. destruct (Z_lt_le_dec 0 m) as [Hm|Hm].
+  - destruct (progress_saturates_pos v m w Hm Hw) as (A & B & C & D).
+    split; [exact A|]. split; [exact B|]. split.
+    + intros [Hv|Hn]; [apply C; exact Hv|lia].
+    + intros Hv. apply D. lia.
+  - rewrite hfilled_nonpos, dfilled_nonpos by lia.
+    split; [lia|]. split; [lia|]. split; [intros _; split; reflexivity|lia].
+Qed.
+
+Lemma progress_exact v m w : 1 <= w -> (m | v * w) -> hfilled v m w = dfilled v m w.
+Proof.
+  intros Hw [k Hk].
+  destruct (Z_lt_le_dec 0 m) as [Hm|Hm]; [|rewrite hfilled_nonpos, dfilled_nonpos by lia; reflexivity].
+  destruct (Z_le_gt_dec v 0) as [H0|H0]; [destruct (progress_saturates_pos v m w Hm Hw) as (_ & _ & S & _); destruct (S H0); congruence|].
+  destruct (Z_le_gt_dec m v) as [H1|H1]; [destruct (progress_saturates_pos v m w Hm Hw) as (_ & _ & _ & S); destruct (S H1); congruence|].
   rewrite hfilled_Z, dfilled_Z by lia. replace (clampv v m) with v by (unfold clampv; lia).
   rewrite Hk, rhe_div_exact, Z.div_mul by lia. reflexivity.
 Qed.
 
-Lemma progress_within_one v m w : 0 < m -> 1 <= w -> 0 <= hfilled v m w - dfilled v m w <= 1.
+Lemma progress_within_one v m w : 1 <= w -> 0 <= hfilled v m w - dfilled v m w <= 1.
 Proof.
-  intros Hm Hw. rewrite hfilled_Z, dfilled_Z by lia.
+  intros Hw. destruct (Z_lt_le_dec 0 m) as [Hm|Hm]; [|rewrite hfilled_nonpos, dfilled_nonpos by lia; lia].
+  rewrite hfilled_Z, dfilled_Z by lia.
   set (n := clampv v m * w).
   pose proof (rhe_div_near n m Hm) as Hn.
   pose proof (Z.div_mod n m ltac:(lia)) as E. pose proof (Z.mod_pos_bound n m Hm) as B.
@@ -499,26 +550,27 @@ Proof.
   intros H. induction H as [|x t Hx Ht IH]; cbn; [reflexivity|]. rewrite IH, canon_ascii by exact Hx. reflexivity.
 Qed.
 
-Lemma width_agree cols width : 1 <= cols -> width_in width = true ->
+(* every width argument, also <= 0 or > cols: both sides clamp it into 1..cols *)
+Lemma width_agree cols width : 1 <= cols ->
   dwidth cols width = hwidth cols width /\ 1 <= hwidth cols width <= cols.
 Proof.
-  intros Hc Hw. unfold dwidth, hwidth. destruct width as [w|]; cbn [width_in] in Hw.
-  - apply Z.leb_le in Hw. rewrite Z.gtb_ltb. zb.
-  - rewrite Z.gtb_ltb. zb.
+  intros Hc. unfold dwidth, hwidth. destruct width as [w|]; cbv zeta; rewrite Z.gtb_ltb.
+  - destruct (Z.ltb_spec cols w); zb.
+  - destruct (Z.ltb_spec cols cols); zb.
 Qed.
 
 (* firmware text = canon (host text) when the two filled lengths coincide *)
 Lemma progress_text_eq cols value maxv width style label :
-  1 <= cols -> style_ok style = true -> ascii label -> 0 < maxv -> width_in width = true ->
+  1 <= cols -> style_ok style = true -> ascii label ->
   hfilled value maxv (hwidth cols width) = dfilled value maxv (dwidth cols width) ->
   exists th, hprogress_row cols value maxv width style label = ljust th cols /\ zlen th <= cols /\
              dev_progress_text cols value maxv width style label = map canon th.
 Proof.
-  intros Hc Hs Hl Hm Hw Hfd.
-  destruct (width_agree cols width Hc Hw) as [Ew Hwr]. rewrite Ew in Hfd.
+  intros Hc Hs Hl Hfd.
+  destruct (width_agree cols width Hc) as [Ew Hwr]. rewrite Ew in Hfd.
   unfold hprogress_row, dev_progress_text. rewrite Ew, <- Hfd.
   set (w := hwidth cols width) in *. set (f := hfilled value maxv w).
-  assert (Hfr : 0 <= f <= w) by (apply hfilled_range; lia).
+  assert (Hfr : 0 <= f <= w) by (apply hfilled_range'; lia).
   rewrite bar_eq by exact Hfr. replace (Z.max 0 (w - f)) with (w - f) by lia.
   set (barh := zrepeat (host_glyph style) f ++ zrepeat SP (w - f)).
   assert (Eb : zrepeat (dev_glyph style) f ++ zrepeat SP (w - f) = map canon barh).
@@ -533,7 +585,6 @@ Qed.
 
 Lemma progress_refines h d row value maxv width style label :
   fits (d_g d) -> shows h d -> 0 <= row < d_rows d -> style_ok style = true -> ascii label ->
-  0 < maxv -> width_in width = true ->
   hfilled value maxv (hwidth (d_cols d) width) = dfilled value maxv (dwidth (d_cols d) width) ->
   exists h', hprogress h row value maxv width style label = (h', HOk) /\ same_flags h h' /\
     let d' := progress d (d_cols d) row value maxv width style label in
@@ -541,10 +592,10 @@ Lemma progress_refines h d row value maxv width style label :
     (forall r c, 0 <= r < d_rows d -> r <> row -> hcell h' r c = hcell h r c) /\
     (forall r c, 0 <= r < d_rows d -> 0 <= c < d_cols d -> r <> row -> dcell d' r c = dcell d r c).
 Proof.
-  intros Hf Sh Hrow Hs Hl Hm Hw Hfd.
+  intros Hf Sh Hrow Hs Hl Hfd.
   destruct (shows_geom h d Sh) as [Ec Er]. pose proof Hf as (Hc40 & Hr4 & _). fold (d_cols d) in Hc40. fold (d_rows d) in Hr4.
   pose proof Sh as (G & Wf & _).
-  destruct (progress_text_eq (d_cols d) value maxv width style label ltac:(lia) Hs Hl Hm Hw Hfd) as (th & Eh & Lh & Ed).
+  destruct (progress_text_eq (d_cols d) value maxv width style label ltac:(lia) Hs Hl Hfd) as (th & Eh & Lh & Ed).
   exists (set_buf h (zupd row (hprogress_row (h_cols h) value maxv width style label) (h_buf h))).
   split.
   { unfold hprogress. rewrite Hs. cbn [negb]. unfold row_ok. rewrite Er.
@@ -676,7 +727,8 @@ Proof.
   - destruct (align_ok top_align && align_ok bottom_align); [|exact I].
     set (d1 := match option_map utf8 top with Some t => _ | None => d end).
     assert (I1 : pin_inv d1) by (subst d1; destruct top; [eapply pin_inv_textual; [apply textual_write_aligned|exact I]|exact I]).
-    destruct bottom; [eapply pin_inv_textual; [apply textual_write_aligned|exact I1]|exact I1].
+    destruct bottom; [|exact I1]. destruct (d_rows d >? 1); [|exact I1].
+    eapply pin_inv_textual; [apply textual_write_aligned|exact I1].
   - eapply pin_inv_textual; [apply textual_lcd_clear|exact I].
   - destruct (style_ok style); [|exact I]. eapply pin_inv_textual; [apply textual_progress|exact I].
   - unfold dev_display. apply pin_inv_bl_switch. apply pin_inv_log_other; [exact Logic.I|exact I].
@@ -749,14 +801,13 @@ Proof.
     destruct (write_refines h d 0 row text clear align Hf Sh Hrow ltac:(lia) (asciib_ascii _ Hasc) Hal) as (h' & E & F & S' & T & _).
     rewrite Hal, (utf8_ascii _ (asciib_ascii _ Hasc)). eexists; eexists. split; [exact E|]. split; [reflexivity|]. split; [eapply agrees_text; eassumption|apply T].
   - (* message *)
-    apply andb_true_iff in Hg as [Hg Hbr]. apply andb_true_iff in Hg as [Hg Hba]. apply andb_true_iff in Hg as [Hg Hta].
+    apply andb_true_iff in Hg as [Hg Hba]. apply andb_true_iff in Hg as [Hg Hta].
     apply andb_true_iff in Hg as [Hat Hab].
-    assert (Hb : bottom = None \/ 2 <= d_rows d).
-    { apply orb_true_iff in Hbr as [H|H]; [left; destruct bottom; [discriminate|reflexivity]|right; apply Z.leb_le in H; exact H]. }
     assert (At : opt_ascii top) by (destruct top; [apply asciib_ascii; exact Hat|exact I]).
     assert (Ab : opt_ascii bottom) by (destruct bottom; [apply asciib_ascii; exact Hab|exact I]).
-    destruct (message_refines h d top bottom top_align bottom_align clear Hf Sh At Ab Hta Hba Hb) as (h' & E & F & S' & T & _).
+    destruct (message_refines h d top bottom top_align bottom_align clear Hf Sh At Ab Hta Hba) as (h' & E & F & S' & T & _).
     rewrite Hta, Hba, (opt_utf8_ascii _ At), (opt_utf8_ascii _ Ab). cbn [andb].
+    fold (dmessage d top bottom top_align bottom_align clear).
     eexists; eexists. split; [exact E|]. split; [reflexivity|].
     split; [eapply agrees_text; eassumption|apply T].
   - (* clear *)
@@ -765,10 +816,10 @@ Proof.
     eexists; eexists. split; [exact E|]. split; [reflexivity|]. split; [|reflexivity].
     eapply agrees_text; eassumption.
   - (* progress *)
-    apply andb_true_iff in Hg as [Hg Hfe]. apply andb_true_iff in Hg as [Hg Hw]. apply andb_true_iff in Hg as [Hg Hm].
+    apply andb_true_iff in Hg as [Hg Hfe].
     apply andb_true_iff in Hg as [Hg Hasc]. apply andb_true_iff in Hg as [Hrow Hst].
-    apply row_in_spec in Hrow. apply Z.ltb_lt in Hm. apply Z.eqb_eq in Hfe.
-    destruct (progress_refines h d row value maxv width style label Hf Sh Hrow Hst (asciib_ascii _ Hasc) Hm Hw Hfe)
+    apply row_in_spec in Hrow. apply Z.eqb_eq in Hfe.
+    destruct (progress_refines h d row value maxv width style label Hf Sh Hrow Hst (asciib_ascii _ Hasc) Hfe)
       as (h' & E & F & S' & T & _).
     rewrite Hst, (utf8_ascii _ (asciib_ascii _ Hasc)).
     eexists; eexists. split; [exact E|]. split; [reflexivity|]. split; [eapply agrees_text; eassumption|apply T].
